@@ -8,6 +8,7 @@ import BumpverVerif.Model.Basic
 import BumpverVerif.Model.LexId
 import BumpverVerif.Model.Vcs
 import BumpverVerif.Gen.VcsTemplates
+import BumpverVerif.Model.Plan
 open Lean BV
 
 def jstr (s : Str) : Json := Json.str (String.ofList s)
@@ -50,6 +51,46 @@ def fmtErrJson : FmtErr → Json
   | .valueError => Json.mkObj [("err", Json.str "ValueError")]
   | .unsupported => unsupported
 
+def getOptBool (j : Json) (k : String) : Except String (Option Bool) :=
+  match j.getObjVal? k with
+  | .ok (Json.bool b) => .ok (some b)
+  | .ok Json.null => .ok none
+  | _ => .error s!"missing tri-state field {k}"
+
+def getOptNat (j : Json) (k : String) : Except String (Option Nat) :=
+  match j.getObjVal? k with
+  | .ok (Json.num n) => .ok (some n.mantissa.toNat)
+  | .ok Json.null => .ok none
+  | _ => .error s!"missing optional nat field {k}"
+
+def evJson : Ev → Json
+  | .cmd n => Json.str n
+  | .add p => Json.str ("add:" ++ String.ofList p)
+  | .preHook o n => Json.str ("pre_hook:" ++ String.ofList o ++ ":" ++ String.ofList n)
+  | .postHook o n => Json.str ("post_hook:" ++ String.ofList o ++ ":" ++ String.ofList n)
+  | .rewrite => Json.str "rewrite"
+
+def handlePlan (j : Json) : Except String Json := do
+  let c : PlanCfg := {
+    commit := ← getBool j "cfg_commit", tag := ← getBool j "cfg_tag", push := ← getBool j "cfg_push",
+    preHook := ← getBool j "cfg_pre", postHook := ← getBool j "cfg_post",
+    scopeBranch := ← getBool j "cfg_branch", tagMsgEmpty := ← getBool j "tag_msg_empty" }
+  let a : PlanCli := {
+    commit := ← getOptBool j "commit", tagCommit := ← getOptBool j "tag_commit", push := ← getOptBool j "push",
+    preHook := ← getBool j "cli_pre", postHook := ← getBool j "cli_post",
+    scopeBranch := ← getOptBool j "cli_branch", dry := ← getBool j "dry", fetch := ← getBool j "fetch",
+    ignoreVcsTag := ← getBool j "ignore_vcs_tag", setVersion := ← getBool j "set_version" }
+  let kind ← getStr j "kind"
+  let e : PlanEnv := {
+    kind := if kind == "hg".toList then .hg else .git,
+    vcsPresent := ← getBool j "vcs_present", failAt := ← getOptNat j "fail_at",
+    branchRemote := ← getBool j "branch_remote", urlRemote := ← getBool j "url_remote",
+    dirtyAbort := ← getBool j "dirty_abort", gateOk := ← getBool j "gate_ok", uniqueOk := ← getBool j "unique_ok",
+    rewriteOk := ← getBool j "rewrite_ok", preOk := ← getBool j "pre_ok", postOk := ← getBool j "post_ok",
+    files := ← getStrList j "files", startVersion := "1.2.3".toList, announced := "1.2.4".toList }
+  let (evs, code) := plan c a e
+  pure (Json.mkObj [("trace", Json.arr (evs.map evJson).toArray), ("exit", Json.num code)])
+
 def okStr (s : Str) : Json := Json.mkObj [("ok", jstr s)]
 def errStr (e : String) : Json := Json.mkObj [("err", Json.str e)]
 
@@ -90,6 +131,7 @@ def handle (j : Json) : Except String Json := do
       | .proceed => okStr "proceed".toList
       | .abort => okStr "abort".toList
       | .crash => errStr "ValueError")
+  | "plan" => handlePlan j
   | o => .error s!"unknown op {o}"
 
 partial def loop (hin hout : IO.FS.Stream) : IO Unit := do
